@@ -28,14 +28,16 @@ def prune(spec: dict[str, Any]) -> dict[str, Any]:
 
 
 def shrink(spec: dict[str, Any], fails: Callable[[dict[str, Any]], bool],
-           max_rounds: int = 8, vset: int = 0, budget_s: float = 60.0) -> dict[str, Any]:
-    import time
-    t_end = time.time() + budget_s
+           max_rounds: int = 8, vset: int = 0, budget_evals: int = 1500) -> dict[str, Any]:
+    # the budget is LOGICAL (candidate evaluations), not wall-clock: the minimal form -- and
+    # with it the key a known finding is matched by -- must not depend on machine load
+    left = [budget_evals]
     fails0 = fails
 
     def fails(s: dict[str, Any]) -> bool:  # noqa: F811 -- budgeted wrapper
-        if time.time() > t_end:
+        if left[0] <= 0:
             return False          # out of minimisation budget: keep what we have
+        left[0] -= 1
         return fails0(s)
     cur = prune(spec)
     if not fails(cur):
